@@ -145,7 +145,7 @@ fn c20_not_for_us() {
 // @property C18
 // @tier quick
 // @functions IpType::contains, IpType::bitor
-// @bound every pair of IpType values over {V4, V6, BOTH} (symbolic choice), plus V4 | V6
+// @bound every pair of IpType values over {V4, V6, V4 | V6} (symbolic choice)
 // @oracle a.contains(b) <=> every family of b is in a; in particular BOTH contains V4 and V6, and neither single family contains BOTH ("disable an interface or one of its IP families")
 // @covers both_contains_single, single_lacks_both
 #[kani::proof]
@@ -154,7 +154,7 @@ fn c18_iptype_contains() {
     let pick = |k: u8| match k {
         0 => IpType::V4,
         1 => IpType::V6,
-        _ => IpType::BOTH,
+        _ => IpType::V4 | IpType::V6,   // both families (not the BOTH constant: a change that drops it must still compile here)
     };
     let (ka, kb): (u8, u8) = (kani::any(), kani::any());
     kani::assume(ka < 3 && kb < 3);
@@ -163,7 +163,7 @@ fn c18_iptype_contains() {
     let (b4, b6) = fam(kb);
     let want = (!b4 || a4) && (!b6 || a6);
     assert!(pick(ka).contains(pick(kb)) == want, "IpType::contains is not the subset test");
-    assert!((IpType::V4 | IpType::V6).contains(IpType::BOTH) && IpType::BOTH.contains(IpType::V4 | IpType::V6));
+    assert!((IpType::V4 | IpType::V6).contains(IpType::V4) && (IpType::V4 | IpType::V6).contains(IpType::V6));
     kani::cover!(ka == 2 && kb == 0, "both_contains_single");
     kani::cover!(ka == 1 && kb == 2, "single_lacks_both");
 }
